@@ -2,6 +2,7 @@ package main
 
 import (
 	"fmt"
+	"go/ast"
 	"go/token"
 	"go/types"
 	"sort"
@@ -89,6 +90,8 @@ func (x *Exec) builtin(st *State, b *ssa.Builtin, com *ssa.CallCommon, args []Va
 		return []Value{x.doAppend(st, args[0], args[1], com.Args[0].Type())}
 	case "print", "println":
 		return nil
+	case "ssa:wrapnilchk":
+		return []Value{args[0]}
 	case "min", "max":
 		a, c := x.mustTerm(args[0], "min"), x.mustTerm(args[1], "min")
 		if b.Name() == "min" {
@@ -162,12 +165,22 @@ func (x *Exec) callStatic(st *State, fn *ssa.Function, args []Value, binds []Val
 	}
 	key := funcKey(fn)
 	fc := w.contracts[key]
-	if fc != nil && (len(fc.Ensures)+len(fc.Requires) > 0 || fc.Flags["opaque"]) && !fc.Flags["inline"] {
-		x.applyContract(st, fn, fc, args, binds, pos, k)
-		return
-	}
-	if pd := w.pureDef(fn); pd != nil && binds == nil {
+	// a side-effect free function is applied as the SMT function it denotes (exact and
+	// deterministic); its contract, if any, is then only an obligation of its own check
+	if pd := w.pureDef(fn); pd != nil && binds == nil && !(fc != nil && fc.Flags["opaque"]) {
 		if targs, ok := x.pureArgs(st, pd, args); ok {
+			if fc != nil && len(fc.Requires) > 0 && !x.pureMode {
+				env := x.specEnvForCall(st, st, fn, args, binds)
+				for _, c := range fc.Requires {
+					g, err := env.evalBool(c.Expr)
+					if err != nil {
+						x.contractError(c, err)
+						continue
+					}
+					x.oblige(st, "requires", key+":"+c.Label+"@"+x.srcAt(pos), c.Props, g, pos)
+					st.assume(g)
+				}
+			}
 			if pd.okName != "" {
 				x.oblige(st, "safety", "call-may-panic:"+key+":"+x.srcAt(pos), []string{"C13"}, App(pd.okName, "Bool", targs...), pos)
 			}
@@ -175,7 +188,12 @@ func (x *Exec) callStatic(st *State, fn *ssa.Function, args []Value, binds []Val
 			return
 		}
 	}
-	if len(st.frames) >= maxInlineDepth+1 || x.onStack(st, fn) || w.isRecursive(fn) || w.isModular(fn) {
+	if fc != nil && (len(fc.Ensures)+len(fc.Requires) > 0 || fc.Flags["opaque"]) && !fc.Flags["inline"] {
+		x.applyContract(st, fn, fc, args, binds, pos, k)
+		return
+	}
+	forceInline := (fc != nil && fc.Flags["inline"]) || fn.Parent() != nil
+	if len(st.frames) >= maxInlineDepth+1 || x.onStack(st, fn) || (w.isRecursive(fn) && !forceInline) || w.isModular(fn) {
 		// cannot inline further: havoc with the callee's static frame
 		if x.pureMode {
 			x.pureFail = "recursion/inlining depth at " + key
@@ -409,6 +427,7 @@ func (x *Exec) applyContract(st *State, fn *ssa.Function, fc *FuncContract, args
 		x.oblige(st, "requires", key+":receiver-invariant:"+c.Label+"@"+x.srcAt(pos), c.Props, g, pos)
 		st.assume(g)
 	}
+	x.checkParamContracts(st, fn, fc, args, pos)
 	x.havocCall(st, fn, args, binds)
 	results := x.havocResults(fn.Signature, fn.Name())
 	for i, r := range results {
@@ -609,6 +628,17 @@ func (x *Exec) recordEvent(st *State, kind string, args []Value, results []Value
 	var asorts, rsorts []string
 	for _, a := range args {
 		t := x.term(a)
+		switch fv := a.(type) {
+		case *ClosureV:
+			t = StrT(funcKey(x.w.unwrapBound(fv.fn))) // function values are logged by the name of the function they denote
+		case *ParamFuncV:
+			t = StrT("param:" + fv.name)
+		case *BoundMethodV:
+			t = StrT("method:" + fv.name)
+		}
+		if a == nil {
+			t = StrT("")
+		}
 		if t == nil || t.Sort == "Opaque" {
 			t = IntT(0)
 		}
@@ -901,4 +931,113 @@ func (x *Exec) logAppendOnly(st *State, old, nw *EvKind) {
 	}
 	parts = append(parts, Eq(App("select", "Int", nw.seq, kq), App("select", "Int", old.seq, kq)))
 	st.assume(Quant("forall", []*Term{kq}, Implies(And(Cmp("<=", IntT(0), kq), Cmp("<", kq, old.n)), And(parts...))))
+}
+
+// checkParamContracts: a function value passed for a parameter that carries a
+// `param` contract must itself guarantee that contract.  For a named function or
+// bound method the obligation is "its ensures clauses imply the param clause",
+// checked on fresh symbolic results.
+func (x *Exec) checkParamContracts(st *State, callee *ssa.Function, fc *FuncContract, args []Value, pos token.Pos) {
+	if fc == nil || len(fc.Params) == 0 {
+		return
+	}
+	for i, p := range callee.Params {
+		clauses := fc.Params[p.Name()]
+		if len(clauses) == 0 || i >= len(args) {
+			continue
+		}
+		cv, ok := args[i].(*ClosureV)
+		if !ok {
+			if pf, ok := args[i].(*ParamFuncV); ok && pf.fc != nil {
+				// forwarding our own parameter: its contract must have a clause of the same label
+				for _, c := range clauses {
+					found := false
+					for _, oc := range pf.fc.Params[pf.name] {
+						if oc.Label == c.Label && oc.Text == c.Text {
+							found = true
+						}
+					}
+					g := True
+					if !found {
+						g = False
+					}
+					x.oblige(st, "requires", funcKey(callee)+":param-"+p.Name()+":"+c.Label+"@"+x.srcAt(pos), c.Props, g, pos)
+				}
+			}
+			continue
+		}
+		target := x.w.unwrapBound(cv.fn)
+		tfc := x.w.contracts[funcKey(target)]
+		sig := target.Signature
+		scratch := st.clone()
+		results := x.havocResults(sig, "pf_"+target.Name())
+		env := x.newSpecEnv(scratch, scratch, target)
+		// assume the target's own ensures on these results
+		if tfc != nil {
+			tenv := x.newSpecEnv(scratch, scratch, target)
+			for j, tp := range target.Params {
+				tenv.vars[tp.Name()] = x.havocOfType("pfarg_"+tp.Name(), tp.Type())
+				_ = j
+			}
+			tenv.setResults(target, results)
+			for _, c := range tfc.Ensures {
+				if mentionsEvents(c.Expr) || mentionsOld(c.Expr) {
+					continue
+				}
+				if g, err := tenv.evalBool(c.Expr); err == nil {
+					scratch.assume(g)
+				}
+			}
+		}
+		for j, r := range results {
+			env.vars["result"+fmt.Sprint(j)] = r
+		}
+		if len(results) > 0 {
+			env.vars["result"] = results[0]
+			if sig.Results().At(len(results)-1).Type().String() == "error" {
+				env.vars["err"] = results[len(results)-1]
+			}
+		}
+		for _, c := range clauses {
+			if c.Kind != "ensures" {
+				continue
+			}
+			g, err := env.evalBool(c.Expr)
+			if err != nil {
+				x.contractError(c, err)
+				continue
+			}
+			x.oblige(scratch, "requires", funcKey(callee)+":param-"+p.Name()+":"+c.Label+"@"+x.srcAt(pos), c.Props, g, pos)
+		}
+	}
+}
+
+func mentionsOld(e ast.Expr) bool {
+	found := false
+	ast.Inspect(e, func(n ast.Node) bool {
+		if c, ok := n.(*ast.CallExpr); ok {
+			if id, ok := c.Fun.(*ast.Ident); ok && id.Name == "old" {
+				found = true
+			}
+		}
+		return true
+	})
+	return found
+}
+
+// unwrapBound: the method behind a bound-method wrapper (p.evaluateX used as a value).
+func (w *World) unwrapBound(fn *ssa.Function) *ssa.Function {
+	if fn.Synthetic == "" || len(fn.Blocks) == 0 {
+		return fn
+	}
+	for _, b := range fn.Blocks {
+		for _, ins := range b.Instrs {
+			if c, ok := ins.(*ssa.Call); ok {
+				if callee := c.Call.StaticCallee(); callee != nil {
+					return callee
+				}
+			}
+		}
+	}
+	return fn
 }
